@@ -1,9 +1,17 @@
 #!/bin/bash
-# regression test of the checks themselves: every stored seeded change must still be reported (exit 1) by the check of its property
+# regression test of the checks themselves: every stored seeded change must still be reported (exit 1) by the check of its
+# property.  Each patch is applied to a scratch copy of /repo (PYVC_REPO); /repo itself is not touched.
 cd /verif
 for d in seeded/*/; do
   sid=$(basename $d)
-  prop=$(python3 -c "import json,re; print(re.findall(r'C\d\d', json.load(open('$d/meta.json'))['property'])[0])")
-  out=$(tools/seed_run.sh $sid $prop 2>&1 | grep -E "exit [0-9]" | head -1)
-  echo "$out"
+  prop=$(python3 -c "import json,re; print(re.findall(r'C\d\d', json.load(open('$d/meta.json'))['property'])[0])" 2>/dev/null)
+  s=$(mktemp -d /tmp/sall.XXXXXX)
+  rsync -a --exclude .git --exclude __pycache__ /repo/ "$s/repo/"
+  if (cd "$s/repo" && patch -p1 -s < /verif/$d/patch.diff >/dev/null 2>&1); then
+    PYVC_REPO="$s/repo" ./check $prop > "$s/out.txt" 2>&1; code=$?
+    echo "$sid $prop exit $code"
+  else
+    echo "$sid $prop PATCH-DOES-NOT-APPLY (the code it changed was changed by a later fix)"
+  fi
+  rm -rf "$s"
 done
